@@ -40,7 +40,7 @@ Reference rendering details (found while making the oracle sound):
   ``:name`` placeholders of the twin and are resolved by name; RETURNING therefore only
   carries plain binds.
 
-Genuine defects this check reports on the unchanged tree (specific mechanisms):
+Genuine defects this check found (fixed in /repo by 7b1a1df, 2a07cdd, fd1a2af; the mechanisms stay as regression detectors):
 * ``literal-execute-escaped-name-keyerror`` - literal_execute bind whose name needs
   escaping -> KeyError in ``_process_parameters_for_postcompile``;
 * ``imv-named-bindname-prefix-replace`` - insertmanyvalues under paramstyle "named":
